@@ -21,3 +21,34 @@ Example K17_nullable_example :
   is_field_nullable KMissing (enc_fty TyPlain) = Ok (KBool false) /\
   is_field_nullable KNone (enc_fty TyPlain) = Ok (KBool true).
 Proof. repeat split; reflexivity. Qed.
+
+(* ---- declared types: fields of generic classes (type variables) ----
+   full statement: for EVERY declared type d (type expressions, variables bound by the specialisation, bounded
+   variables left unbound, under any Annotated / Final wrapping) and every default, the translated predicate on d
+   equals the model's `nullable` of the plan carrying the RESOLVED type -- what OptProj.to_dict_model uses.
+   It holds on the computable domain dty_ok (every variable is bound by the specialisation to a type mashumaro
+   compiles, or is the unconstrained variable) ... *)
+Theorem K17_nullable_declared_partial : forall (p: fplan) (d: dty), dty_ok d = true ->
+  is_field_nullable (enc_default p.(p_default)) (enc_dty d) = Ok (KBool (nullable (with_ty p (resolve d)))).
+Proof. exact K17_nullable_declared_lemma. Qed.
+Print Assumptions K17_nullable_declared_partial.
+
+(* ... and is refuted outside it by TypeVar("B", bound=Optional[int]) left unbound (known finding
+   C08/omit-none-typevar-bound) *)
+Theorem K17_bound_refuted :
+  ~ (forall (p: fplan) (d: dty),
+       is_field_nullable (enc_default p.(p_default)) (enc_dty d) = Ok (KBool (nullable (with_ty p (resolve d))))).
+Proof. exact K17_bound_refuted_lemma. Qed.
+Print Assumptions K17_bound_refuted.
+
+(* non-vacuity: G[Optional[int]].gv (T bound to Optional), Annotated[T, ...] with T bound to a wide union,
+   T bound to Any are nullable; T bound to int is not; the unconstrained variable is (was the defect of
+   /repo before 4da7e9e: the first three evaluated to false) *)
+Example K17_declared_example :
+  is_field_nullable KMissing (enc_dty (DVar TyOptional)) = Ok (KBool true) /\
+  is_field_nullable KMissing (enc_dty (DAnnotated (DVar TyUnionNone))) = Ok (KBool true) /\
+  is_field_nullable KMissing (enc_dty (DFinal (DVar TyAny))) = Ok (KBool true) /\
+  is_field_nullable KMissing (enc_dty (DVar TyPlain)) = Ok (KBool false) /\
+  is_field_nullable KMissing (enc_dty (DTy TyTypeVarAny)) = Ok (KBool true) /\
+  dty_ok (DAnnotated (DVar TyUnionNone)) = true.
+Proof. repeat split; reflexivity. Qed.
